@@ -33,7 +33,7 @@ REPORT = ['modules', 'evaluations', 'outcome:value', 'outcome:library_error', 'o
           'zero_width_class_inputs', 'carved_out']
 FLOORS = {'quick': {'evaluations': 20000, 'sentinel_checks': 20000},
           'thorough': {'evaluations': 80000, 'sentinel_checks': 80000}}
-TIMEOUT = {'quick': 1800, 'thorough': 14000}
+TIMEOUT = {'quick': 1800, 'thorough': 5400}
 RLIMIT_AS = 3 << 30
 
 
